@@ -147,6 +147,13 @@ def rand_composite(rng, path_mode, max_inc=4, max_exc=3):
                 text_, ast_, _e = rng.choice(raws)
                 singles[rng.randrange(k)] = ('raw', text_, ast_)
             how = 'plain' if k == 1 else rng.choice(('split', 'brace'))
+            if path_mode and k >= 2 and how == 'split' and rng.random() < 0.2:
+                # `[` that is no bracket expression because a separator comes before its `]`: the `|` in between splits
+                x, a, b, y = (rng.choice('abc') for _ in range(4))
+                neg = rng.choice(('', '!'))
+                first = ('raw', f'{x}[{neg}{a}', L(x + '[' + neg + a))
+                second = ('raw', f'{b}/]{y}', L(b) + (('sep', '/'),) + L(']' + y))
+                singles[0:2] = [first, second]
             text, pairs, need = build_text(rng, singles, how)
             out.append((text, pairs, need))
             remaining -= k
